@@ -1,7 +1,7 @@
 // C17 — writing then reading (formatting then parsing) gives back the same data
 // VF-VARIANT: san
 // VF-RULE: E2, one space per clause: (numbers) every string of length <= L over {0,1,9,.,-,+,e,E,space} against a reference recogniser for the strict decimal grammar and strtod/exact integer values; (format) toString(x,17)->toDouble for +-m*2^e, m in 6 mantissa patterns, every exponent -1074..1023, and toString(i)->toInt for every 17-bit int and the int32 boundaries; (tokenisers) every string of length <= L over {a,b,",",space,(,),=} x delimiter set x solid x allowEmptyTokens, re-join with the recorded splits at every cursor position; nested tokeniser on every bracket-balanced string against a depth-0 splitter; (key-values) every procedure rendered from a name and an argument map, parsed back, and every changeKeyvals substitution; (wildcards) every pattern over {a,b,*} against every name over {a,b} of length <= 5 for the three matchers vs a DP glob matcher; (variables) every map over keys {a,b,c} with values from words over {x,$(a),$(b),$(c)}; (tables) every table over cells {x,y,1} up to 3x3 and every shape up to 6x6 with distinct cells x name options x separator; (distributions) every family and nested compound x class counts 1..8 x a parameter lattice, written then read. A case is non-trivial when the datum is non-empty / the string belongs to the grammar / the table has >= 2 cells.
-// VF-BOUND: all finite doubles -> 6 mantissa patterns x all 2098 binary exponents x sign; all ints -> [-2^16,2^16] and the int32 boundaries; strings of length <= 24 -> all strings of length <= 5|6 (numbers) and <= 5|7 (tokenisers) over 7..9 characters; argument maps over 4|6 keys and 4 values (nested one level); patterns of length <= 6|8; tables up to 3x3 over 3 cell values and every shape to 6x6; distribution parameters on a lattice of 2-3 values per parameter with at most 6 decimals
+// VF-BOUND: all finite doubles -> 6 mantissa patterns x all 2098 binary exponents x sign; all ints -> [-2^16,2^16] and the int32 boundaries; strings of length <= 24 -> all strings of length <= 5|6 (numbers) and <= 5|7 (tokenisers) over 7..9 characters; argument maps over 4|6 keys and 4 values (nested one level); patterns of length <= 6|8; tables up to 3x3 over 3 cell values and every shape to 6x6; distribution parameters on a lattice of 2-4 values per parameter
 // VF-LEVEL: bounded-exhaustive comparison of the real code with reference models written for the harness (recogniser, splitter, glob matcher, substitution, table and distribution equality); no sampling
 // VF-ASSUME: strtod of the C library is correctly rounded and gives the value of a decimal literal;; the reference recogniser implements the most permissive strict reading -?(D+(.D*)?|.D+)(e[+-]?D+)? for numbers and -?D+(e+?D+)? for integers with the configured decimal/exponent characters;; variable resolution that uses more than 0.02 s of CPU time does not terminate (terminating cases take microseconds)
 // VF-TECHNIQUE: exhaustive small-scope enumeration with reference models
@@ -472,7 +472,7 @@ struct DistSpec { string label; std::function<DP()> make; };
 static vector<DistSpec> distSpecs() {
   vector<DistSpec> v;
   for (size_t n = 1; n <= 8; ++n) {
-    for (double a : {0.5, 1., 2.5}) for (double b : {0.5, 1., 2.}) v.push_back({"Gamma(n=" + vf::str(n) + ",alpha=" + vf::str(a) + ",beta=" + vf::str(b) + ")", [=] { return DP(new GammaDiscreteDistribution(n, a, b)); }});
+    for (double a : {0.5, 1., 2.5, 0.1234567891}) for (double b : {0.5, 1., 2.}) v.push_back({"Gamma(n=" + vf::str(n) + ",alpha=" + vf::str(a) + ",beta=" + vf::str(b) + ")", [=] { return DP(new GammaDiscreteDistribution(n, a, b)); }});
     for (double a : {0.5, 2., 3.}) for (double b : {0.5, 2., 3.}) v.push_back({"Beta(n=" + vf::str(n) + ",alpha=" + vf::str(a) + ",beta=" + vf::str(b) + ")", [=] { return DP(new BetaDiscreteDistribution(n, a, b)); }});
     for (double m : {-1., 0., 2.5}) for (double s : {0.5, 1., 2.}) v.push_back({"Gaussian(n=" + vf::str(n) + ",mu=" + vf::str(m) + ",sigma=" + vf::str(s) + ")", [=] { return DP(new GaussianDiscreteDistribution(n, m, s)); }});
     for (double l : {0.5, 1., 4.}) v.push_back({"Exponential(n=" + vf::str(n) + ",lambda=" + vf::str(l) + ")", [=] { return DP(new ExponentialDiscreteDistribution(n, l)); }});
@@ -483,8 +483,8 @@ static vector<DistSpec> distSpecs() {
       v.push_back({"Simple(" + vf::str(n) + " classes)", [=] { return DP(new SimpleDiscreteDistribution(vals, pr)); }}); }
     // compounds
     for (double p : {0.125, 0.25}) {
-      v.push_back({"Invariant(Gamma(n=" + vf::str(n) + ",alpha=0.5,beta=2),p=" + vf::str(p) + ")", [=] { return DP(new InvariantMixedDiscreteDistribution(DP(new GammaDiscreteDistribution(n, 0.5, 2.)), p)); }});
-      v.push_back({"Invariant(Exponential(n=" + vf::str(n) + ",lambda=2),p=" + vf::str(p) + ")", [=] { return DP(new InvariantMixedDiscreteDistribution(DP(new ExponentialDiscreteDistribution(n, 2.)), p)); }});
+      v.push_back({"Invariant(Gamma(n=" + vf::str(n) + ",alpha=0.5,beta=2),p=" + vf::str(p) + ")", [=] { return DP(new InvariantMixedDiscreteDistribution(DP(new GammaDiscreteDistribution(n, 0.5, 2.)), p, 0.000001)); }});
+      v.push_back({"Invariant(Exponential(n=" + vf::str(n) + ",lambda=2),p=" + vf::str(p) + ")", [=] { return DP(new InvariantMixedDiscreteDistribution(DP(new ExponentialDiscreteDistribution(n, 2.)), p, 0.000001)); }});
     }
     v.push_back({"Mixture(0.25*Gamma(n=" + vf::str(n) + ",2.5,1)+0.75*Exponential(n=2,4))", [=] { vector<DP> ds; ds.emplace_back(new GammaDiscreteDistribution(n, 2.5, 1.)); ds.emplace_back(new ExponentialDiscreteDistribution(2, 4.)); return DP(new MixtureOfDiscreteDistributions(ds, {0.25, 0.75})); }});
     v.push_back({"Mixture(0.5*Constant(2)+0.5*Beta(n=" + vf::str(n) + ",2,3))", [=] { vector<DP> ds; ds.emplace_back(new ConstantDistribution(2.)); ds.emplace_back(new BetaDiscreteDistribution(n, 2., 3.)); return DP(new MixtureOfDiscreteDistributions(ds, {0.5, 0.5})); }});
@@ -516,11 +516,14 @@ static void distSpace(vf::Runner& R) {
     if (!r) { c.fail("distribution|" + fam + "|read-raises-on-written-description", in + ": " + what.substr(0, 140)); return; }
     if (r->getName() != d->getName()) { c.fail("distribution|" + fam + "|family", in + ": read back as " + r->getName()); return; }
     if (r->getNumberOfCategories() != d->getNumberOfCategories()) { c.fail("distribution|" + fam + "|number-of-classes", in + ": " + vf::str(r->getNumberOfCategories()) + " vs " + vf::str(d->getNumberOfCategories())); return; }
-    // the writer prints parameters with 12 and class values / probabilities with 6 decimals; all lattice values have at most 6 decimals,
-    // so the description is exact and the reader recomputes the same classes; 1e-6 (relative, floor 1e-6 absolute) is the writer's precision
+    // the writer prints parameters with 12 decimals and Simple/Mixture values and probabilities with 6; lattice values printed with 6
+    // decimals are exact there, parameters are off by at most 5e-13, and class values/probabilities are smooth in the parameters
+    // (sensitivity < 1e3 on this lattice): 1e-9 bounds the legitimate difference
     for (size_t i = 0; i < d->getNumberOfCategories(); ++i) {
       double a = d->getCategory(i), b = r->getCategory(i), pa = d->getProbability(i), pb = r->getProbability(i);
-      double tolv = 1e-6 * std::max(1., std::fabs(a)), tolp = 1e-6;
+      bool sixDecimals = (fam == "Simple" || fam == "Mixture");   // values / probabilities themselves are printed, with 6 decimals
+      double tol = sixDecimals ? 1e-6 : 1e-9;
+      double tolv = tol * std::max(1., std::fabs(a)), tolp = tol;
       if (!(std::fabs(a - b) <= tolv)) { c.fail("distribution|" + fam + "|class-values", in + ": class " + vf::str(i) + " value " + vf::num(a) + " reads back as " + vf::num(b)); return; }
       if (!(std::fabs(pa - pb) <= tolp)) { c.fail("distribution|" + fam + "|class-probabilities", in + ": class " + vf::str(i) + " probability " + vf::num(pa) + " reads back as " + vf::num(pb)); return; }
     }
@@ -556,6 +559,6 @@ int main(int argc, char** argv) {
   R.note("nested tokeniser: judged on bracket-balanced inputs only, against a splitter that cuts at delimiter characters met at bracket depth 0 and drops empty pieces");
   R.note("variables: termination is judged by a CPU-time watchdog (0.02 s; a non-terminating case appears as crash|AttributesTools::resolveVariables|exit97); value equality with full substitution only for acyclic maps whose references are all defined");
   R.note("tables: written with DataTable::write(ostream) and read with header = (column names present), rowNames=-1; tables whose text has fewer than two lines are outside the clause");
-  R.note("distributions: lattice values have at most 6 decimals so that the 6-decimal (values, probabilities) and 12-decimal (parameters) output is exact; tolerance 1e-6 = the writer's precision");
+  R.note("distributions: values printed with 6 decimals (Simple/Mixture values and probabilities) are exact on the lattice; parameters are printed with 12 decimals (one lattice value, alpha=0.1234567891, needs 10); tolerance 1e-9 on class values (relative, floor absolute) and probabilities for the parameter-driven families and 1e-6 (the printed precision) for Simple and Mixture; the description language has no field for the value of the invariant class, the reader uses 1e-6, so Invariant objects are built with that value");
   return R.finish();
 }
